@@ -47,7 +47,7 @@ inductive HB where
   | opt (b : HB)          -- `None` (or the empty frozenset) `if a is None else b(a)`
   | ifList (b : HB)       -- `b(a) if isinstance(a, list) else a`
   | ifArray (b : HB)      -- the rounded tuple if `a` is an ndarray, else `b(a)`
-  deriving Repr, Inhabited
+  deriving DecidableEq, Repr, Inhabited
 
 /-- what `hok` is looking at: a Python value under a builder, or (auxiliary) a chain of elements / items / attributes -/
 inductive HM where
